@@ -368,8 +368,138 @@ Proof.
     rewrite Hs. destruct (L_rb_history ops Hv) as (_ & _ & _ & _ & Hsorted). exact Hsorted.
 Qed.
 
+(* ---------- duplication of the instances of a (leaf-)list into a parent (lyd_dup, fixed code) ---------- *)
+Lemma L_isort_gen_sorted (l acc : list A) : sorted cmp acc -> sorted cmp (fold_left SI l acc).
+Proof. apply isort_gen_sorted; assumption. Qed.
+
+Lemma isort_sorted (l : list A) : sorted cmp (isort cmp l).
+Proof. unfold isort. apply L_isort_gen_sorted. exact I. Qed.
+
+Lemma isort_perm (l : list A) : Permutation l (isort cmp l).
+Proof. unfold isort. etransitivity; [|apply L_isort_gen_perm]. now rewrite app_nil_r. Qed.
+
+Lemma isort_snoc (l : list A) x : isort cmp (l ++ [x]) = SI (isort cmp l) x.
+Proof. unfold isort. now rewrite fold_left_app. Qed.
+
+Definition no_tree (s : lst A) : Prop := match rbt s with Some (Node _ _ _ _) => False | _ => True end.
+
+Lemma lyds_ok_sorted (s : lst A) : lyds_ok s -> ~ no_tree s -> sorted cmp (sibs s).
+Proof.
+  intros (_ & Ht) Hn. unfold no_tree in Hn. destruct (rbt s) as [[|c l k r]|]; try (exfalso; apply Hn; exact I).
+  destruct Ht as (<- & Hs & _). exact Hs.
+Qed.
+
+Lemma insert_result_perm (s : lst A) x : Permutation (x :: sibs s) (insert_result s x).
+Proof.
+  unfold insert_result. destruct (sibs s) as [|y ys]; [reflexivity|].
+  destruct (rbt s) as [[|? ? ? ?]|]; try apply L_si_perm;
+    (etransitivity; [apply perm_skip, isort_perm|apply L_si_perm]).
+Qed.
+
+Lemma isort_insert_result (s : lst A) x :
+  lyds_ok s -> isort cmp (insert_result s x) = SI (isort cmp (sibs s)) x.
+Proof.
+  intro Hok. unfold insert_result. destruct (sibs s) as [|y ys] eqn:Es; [reflexivity|].
+  destruct (rbt s) as [[|c l k r]|] eqn:Er.
+  - apply isort_sorted_id. apply L_si_sorted. apply isort_sorted.
+  - assert (Hs : sorted cmp (sibs s)).
+    { apply lyds_ok_sorted; [exact Hok|]. unfold no_tree. rewrite Er. auto. }
+    rewrite Es in Hs. rewrite (isort_sorted_id _ Hs). apply isort_sorted_id. now apply L_si_sorted.
+  - apply isort_sorted_id. apply L_si_sorted. apply isort_sorted.
+Qed.
+
+Lemma lyds_append_ok (s : lst A) x : lyds_ok s -> no_tree s -> ~ In x (sibs s) -> lyds_ok (lyds_append s x) /\ no_tree (lyds_append s x).
+Proof.
+  intros (Hnd & _) Hn Hx. unfold lyds_append, lyds_ok, no_tree in *. cbn [sibs rbt]. split; [|exact Hn].
+  split.
+  - apply (Permutation_NoDup (l := x :: sibs s)); [apply Permutation_cons_append|now constructor].
+  - destruct (rbt s) as [[|? ? ? ?]|]; try exact I. destruct Hn.
+Qed.
+
+Lemma dup_first_meta_ok sm (s s' : lst A) : lyds_ok s' -> lyds_ok (dup_first_meta sm s s') /\ sibs (dup_first_meta sm s s') = sibs s'.
+Proof.
+  intro Hok. unfold dup_first_meta. destruct (sibs s); [|auto]. destruct sm; [|auto].
+  split; [|reflexivity]. split; [exact (proj1 Hok)|exact I].
+Qed.
+
+(* a duplicate that is the only instance was inserted into an empty list: there is no tree yet *)
+Lemma dup_alone_no_tree after sm (s s' : lst A) x :
+  lyds_ok s -> ~ In x (sibs s) -> lyds_insert cmp ideq s x false = Some s' ->
+  dup_alone ideq true after (dup_first_meta sm s s') x = true -> no_tree (dup_first_meta sm s s').
+Proof.
+  intros Hok Hx E Ha. unfold dup_alone in Ha. apply andb_true_iff in Ha. destruct Ha as (_ & Ha).
+  destruct (lyds_insert_spec s x false Hok Hx) as (s2 & E2 & _ & Hs2). rewrite E in E2. injection E2 as <-.
+  assert (Hl : length (sibs s') = S (length (sibs s))).
+  { rewrite Hs2. symmetry. apply (Permutation_length (insert_result_perm s x)). }
+  unfold lyds_insert in E. unfold dup_first_meta, no_tree in *. destruct (sibs s) as [|y ys] eqn:Es.
+  - injection E as <-. destruct sm; exact I.
+  - exfalso. destruct (sibs s') as [|a [|b l]]; cbn in *; try discriminate; lia.
+Qed.
+
+Lemma lyds_dup_rest_spec after (xs : list A) : forall (s : lst A) fast,
+  lyds_ok s -> (fast = true -> no_tree s) -> NoDup (sibs s ++ xs) ->
+  exists s', lyds_dup_rest cmp ideq true after fast s xs = Some s' /\ lyds_ok s' /\
+             isort cmp (sibs s') = fold_left SI xs (isort cmp (sibs s)) /\ Permutation (sibs s ++ xs) (sibs s').
+Proof.
+  induction xs as [|x xs IH]; intros s fast Hok Hf Hnd; cbn [lyds_dup_rest fold_left].
+  - exists s. rewrite app_nil_r. auto.
+  - assert (Hx : ~ In x (sibs s)).
+    { apply NoDup_remove_2 in Hnd. intro Hin. apply Hnd. apply in_or_app. now left. }
+    destruct fast.
+    + destruct (lyds_append_ok s x Hok (Hf eq_refl) Hx) as (Hok1 & Hn1).
+      destruct (IH (lyds_append s x) (dup_alone ideq true after (lyds_append s x) x) Hok1 (fun _ => Hn1)) as (s' & E & Hok' & Hi & Hp).
+      { cbn [lyds_append sibs]. rewrite <- app_assoc. exact Hnd. }
+      exists s'. split; [exact E|]. split; [exact Hok'|]. split.
+      * rewrite Hi. cbn [lyds_append sibs]. now rewrite isort_snoc.
+      * etransitivity; [|exact Hp]. cbn [lyds_append sibs]. rewrite <- app_assoc. reflexivity.
+    + destruct (lyds_insert_spec s x false Hok Hx) as (s1 & E1 & Hok1 & Hs1). rewrite E1.
+      assert (Hp1 : Permutation (x :: sibs s) (sibs s1)) by (rewrite Hs1; apply insert_result_perm).
+      destruct (IH s1 (dup_alone ideq true after s1 x) Hok1) as (s' & E & Hok' & Hi & Hp).
+      { intro Ha. pose proof (dup_alone_no_tree after false s s1 x Hok Hx E1) as H.
+        unfold dup_first_meta in H. destruct (sibs s); apply H; exact Ha. }
+      { apply (Permutation_NoDup (l := sibs s ++ x :: xs)); [|exact Hnd].
+        etransitivity; [symmetry; apply Permutation_middle|]. change (x :: sibs s ++ xs) with ((x :: sibs s) ++ xs).
+        now apply Permutation_app_tail. }
+      exists s'. split; [exact E|]. split; [exact Hok'|]. split.
+      * rewrite Hi, Hs1. now rewrite isort_insert_result.
+      * etransitivity; [|exact Hp]. etransitivity; [symmetry; apply Permutation_middle|].
+        change (x :: sibs s ++ xs) with ((x :: sibs s) ++ xs). now apply Permutation_app_tail.
+Qed.
+
+(* lyd_dup_siblings of the instances xs into a parent (fixed code): never a NULL dereference, the leader's tree (if
+   any) walks the siblings, the siblings are the old ones plus the duplicates, and sorting them (which the next
+   sorted insert does if there is no tree yet) gives the duplicates inserted one by one; when a tree exists the
+   siblings are sorted already *)
+Theorem lyds_dup_spec after sm (s : lst A) (xs : list A) :
+  lyds_ok s -> NoDup (sibs s ++ xs) ->
+  exists s', lyds_dup cmp ideq true after sm s xs = Some s' /\ lyds_ok s' /\
+             isort cmp (sibs s') = fold_left SI xs (isort cmp (sibs s)) /\
+             Permutation (sibs s ++ xs) (sibs s') /\ (~ no_tree s' -> sorted cmp (sibs s')).
+Proof.
+  intros Hok Hnd. unfold lyds_dup. destruct xs as [|x xs].
+  - exists s. split; [reflexivity|]. split; [exact Hok|]. split; [reflexivity|]. split; [rewrite app_nil_r; reflexivity|].
+    now apply lyds_ok_sorted.
+  - assert (Hx : ~ In x (sibs s)).
+    { apply NoDup_remove_2 in Hnd. intro Hin. apply Hnd. apply in_or_app. now left. }
+    destruct (lyds_insert_spec s x false Hok Hx) as (s1 & E1 & Hok1 & Hs1). rewrite E1.
+    destruct (dup_first_meta_ok sm s s1 Hok1) as (Hok2 & Hs2).
+    assert (Hp1 : Permutation (x :: sibs s) (sibs s1)) by (rewrite Hs1; apply insert_result_perm).
+    destruct (lyds_dup_rest_spec after xs (dup_first_meta sm s s1) (dup_alone ideq true after (dup_first_meta sm s s1) x) Hok2)
+      as (s' & E & Hok' & Hi & Hp).
+    { exact (dup_alone_no_tree after sm s s1 x Hok Hx E1). }
+    { rewrite Hs2. apply (Permutation_NoDup (l := sibs s ++ x :: xs)); [|exact Hnd].
+      etransitivity; [symmetry; apply Permutation_middle|]. change (x :: sibs s ++ xs) with ((x :: sibs s) ++ xs).
+      now apply Permutation_app_tail. }
+    exists s'. split; [exact E|]. split; [exact Hok'|]. split; [|split].
+    + cbn [fold_left]. rewrite Hi, Hs2, Hs1. now rewrite isort_insert_result.
+    + etransitivity; [|exact Hp]. rewrite Hs2. etransitivity; [symmetry; apply Permutation_middle|].
+      change (x :: sibs s ++ xs) with ((x :: sibs s) ++ xs). now apply Permutation_app_tail.
+    + now apply lyds_ok_sorted.
+Qed.
+
 End SortedP.
 
 Arguments lyds_ok {A}.
 Arguments insert_result {A}.
 Arguments lyds_run {A}.
+Arguments no_tree {A}.
